@@ -474,6 +474,27 @@ Theorem C06_parafac2_rescaling_preserves_error : forall (F : Type) (Op : fops F)
   p2_err2_fast Op I K Rk J X P A' Bm' C' (p2_tmp_proj Op Rk J X P A' Bm') = p2_err2_fast Op I K Rk J X P A Bm C (p2_tmp_proj Op Rk J X P A Bm).
 Proof. exact @p2_rescale_both. Qed.
 Print Assumptions C06_parafac2_rescaling_preserves_error.
+(* ... and with the normalisation hypothesis discharged (C06_parafac2_rescaling_preserves_error inside the loop): for every oracle whose
+   normalisation keeps the projections and rescales the columns of B and C with A * weights absorbing the scales *)
+Theorem C06_parafac2_loop_reports_true_errors_with_rescaling : forall (F : Type) (Op : fops F),
+  ring_theory (f0 Op) (f1 Op) (fadd Op) (fmul Op) (fsub Op) (fopp Op) (@eq F) ->
+  forall (I K Rk : nat) (J : nat -> nat) (X : nat -> nat -> nat -> F) (Or : p2oracle (p2_state (F := F))) (ls normalize : bool),
+  (forall st, p2_rescaled Op st (p2_norm Or st)) ->
+  forall n init j, j < length (snd (p2_loop (p2_fast_of Op I K Rk J X) Or ls normalize false n 0 init [])) ->
+  nth_error (snd (p2_loop (p2_fast_of Op I K Rk J X) Or ls normalize false n 0 init [])) j
+  = Some (p2_true_of Op I K Rk J X (fst (p2_loop (p2_fast_of Op I K Rk J X) Or ls normalize false (S j) 0 init []))).
+Proof. exact @p2_loop_reports_true_errors_rescaling. Qed.
+Print Assumptions C06_parafac2_loop_reports_true_errors_with_rescaling.
+(* non-vacuity: the identity normalisation and a sign flip of column 0 of B absorbed by A are such rescalings (over Z) *)
+Example C06_parafac2_rescaled_nonvacuous :
+  forall (P : nat -> nat -> nat -> Z) (A Bm C : nat -> nat -> Z),
+  p2_rescaled Zops (P, A, Bm, C) (P, A, Bm, C) /\
+  p2_rescaled Zops (P, A, Bm, C) (P, (fun i r => (A i r * ((if Nat.eqb r 0 then -1 else 1) * 1))%Z), (fun q r => ((if Nat.eqb r 0 then -1 else 1) * Bm q r)%Z), C).
+Proof.
+  intros P A Bm C. split; (split; [reflexivity|]).
+  - exists (fun _ => 1%Z), (fun _ => 1%Z). repeat split; intros; cbv [fmul Zops]; ring.
+  - exists (fun r => if Nat.eqb r 0 then (-1)%Z else 1%Z), (fun _ => 1%Z). repeat split; intros; cbv [fmul Zops]; destruct (Nat.eqb r 0); ring.
+Qed.
 (* non-negative Tucker variants with normalize_factors=True (explicit residual recorded, then tucker_normalize, also on the exits), over the reals
    with the transcribed tucker_normalize (column norms, zero norms replaced by 1, core multiplied by the norms): for EVERY update rule, stop
    pattern, record / callback ordering, with or without normalisation, every recorded value is the squared residual of the iterate returned by
